@@ -67,7 +67,7 @@ from .gens import nice
 MAXBINS = 30000          # cap on the number of cutoff-sized bins of the padded superbox (memory/time of nlist)
 
 CELLS = gens.cells(rotated=True, lefthanded=False, origin=True, lmin=1.0, lmax=12.0, maxtilt=1.5, families=True)
-KINDS = st.sampled_from(['sparse'] * 3 + ['targeted'] * 5 + ['faces'] * 2 + ['binedge'] * 3 + ['dense'] * 4 + ['cluster'] * 2
+KINDS = st.sampled_from(['sparse'] * 3 + ['targeted'] * 5 + ['faces'] * 2 + ['binedge'] * 4 + ['dense'] * 5 + ['cluster'] * 2
                         + ['dyadic'] * 3 + ['near'] * 3)
 _unit = st.integers(0, 10000).map(lambda k: k / 10000.0)      # not st.floats: those return exactly 0.0/1.0 very often
 _sym = nice(-1.0, 1.0, 4)
@@ -91,7 +91,7 @@ _signs = st.lists(st.sampled_from([1, -1]), min_size=3, max_size=3)
 _len4 = st.integers(4, 48).map(lambda k: k / 4.0)
 _org4 = st.one_of(st.just(0.0), st.integers(-64, 64).map(lambda k: k / 4.0))
 _above = st.sampled_from([0.0, 0.0, 2.0 ** -20, -2.0 ** -20])
-POSFORMS = st.sampled_from(['array'] * 7 + ['readonly'] * 2 + ['frombuffer', 'memmap', 'fortran', 'strided', 'list', 'tuple', 'narrow', 'narrow'])
+POSFORMS = st.sampled_from(['array'] * 7 + ['readonly'] * 3 + ['frombuffer', 'memmap', 'fortran', 'strided', 'strided', 'list', 'tuple', 'narrow', 'narrow'])
 DYADIC_POSFORMS = st.sampled_from(['array'] * 3 + ['float32'] + ['readonly', 'frombuffer', 'list', 'strided'] + ['narrow'] * 5)
 WHOLE_POSFORMS = st.sampled_from(['intarray'] * 3 + ['intlist'] * 2 + ['inttuple', 'float32', 'readonly', 'list', 'strided'] + ['array'] * 2
                                  + ['narrow'] * 12)
